@@ -82,8 +82,38 @@ def randint(a, b):
     return v
 
 
-def sample(population, k, *, counts=None):
+def _as_range(population):
+    """An explicit sequence of ints that is an arithmetic progression denotes the same population
+    as a range: sample() consumes the generator identically for both (it only uses len and
+    indexing), so it is recorded the same way."""
     if isinstance(population, range):
+        return population
+    if isinstance(population, (list, tuple)) and all(isinstance(x, int) and not isinstance(x, bool) for x in population):
+        n = len(population)
+        if n == 0:
+            return range(0, 0, -1)
+        if n == 1:
+            return range(population[0], population[0] - 1, -1)
+        step = population[1] - population[0]
+        if step != 0 and all(population[i + 1] - population[i] == step for i in range(n - 1)):
+            return range(population[0], population[0] + n * step, step)
+    return None
+
+
+def randrange(start, stop=None, step=1):
+    if stop is None:
+        start, stop = 0, start
+    if step == 1 and isinstance(start, int) and isinstance(stop, int):
+        return randint(start, stop - 1)
+    v = _REAL["randrange"](start, stop, step)
+    LOG.append("RX %s %s %s" % (start, stop, step))          # not used by gigue: the model rejects it
+    return v
+
+
+def sample(population, k, *, counts=None):
+    rng = _as_range(population) if counts is None else None
+    if rng is not None:
+        population = rng
         f = _force("SA", {"range": population, "k": k})
         res = f if f is not None else _REAL["sample"](population, k)
         LOG.append("SA %d %d %d %d %s" % (population.start, population.stop, population.step, k,
@@ -132,7 +162,7 @@ def randbytes(n):
     return v
 
 
-_WRAP = {"choice": choice, "choices": choices, "randint": randint, "sample": sample, "shuffle": shuffle,
+_WRAP = {"choice": choice, "choices": choices, "randint": randint, "randrange": randrange, "sample": sample, "shuffle": shuffle,
          "gauss": gauss, "random": rand, "randbytes": randbytes}
 
 
